@@ -1,0 +1,37 @@
+//go:build verif
+
+package dsp
+
+// Add-only exports for /verif (properties C04, C06). Not part of the package API.
+
+// VerifWithPortableDecoderKernels runs f with every table-dispatched decoder kernel
+// (inverse DCT / WHT, 16x16 and 8x8 predictors) replaced by its pure-Go
+// implementation, then restores the dispatch tables. Not safe for concurrent use.
+func VerifWithPortableDecoderKernels(f func()) {
+	t, tuv, twht, tac3, tdc, tdcuv := Transform, TransformUV, TransformWHT, TransformAC3, TransformDC, TransformDCUV
+	l16, c8 := PredLuma16, PredChroma8
+	it := ITransform
+	defer func() {
+		Transform, TransformUV, TransformWHT, TransformAC3, TransformDC, TransformDCUV = t, tuv, twht, tac3, tdc, tdcuv
+		PredLuma16, PredChroma8 = l16, c8
+		ITransform = it
+	}()
+	Transform, TransformUV, TransformWHT = transformTwo, transformUV, transformWHT
+	TransformAC3, TransformDC, TransformDCUV = transformAC3, transformDC, transformDCUV
+	ITransform = iTransform
+	PredLuma16[0], PredLuma16[1], PredLuma16[2], PredLuma16[3] = dc16, tm16, ve16, he16
+	PredChroma8[0], PredChroma8[1], PredChroma8[2], PredChroma8[3] = dc8uv, tm8uv, ve8uv, he8uv
+	f()
+}
+
+// Kernel wrappers on caller-supplied buffers (portable implementations).
+func VerifTransformOne(in []int16, dst []byte)     { transformOne(in, dst) }
+func VerifTransformDC(in []int16, dst []byte)      { transformDC(in, dst) }
+func VerifTransformAC3(in []int16, dst []byte)     { transformAC3(in, dst) }
+func VerifTransformWHT(in []int16, out []int16)    { transformWHT(in, out) }
+func VerifPredLuma4(mode int, buf []byte, off int) { PredLuma4[mode](buf, off) }
+
+// VerifClipTables returns the four clip tables as built by initClipTables.
+func VerifClipTables() (s1, s2 []int8, c1, a0 []uint8) {
+	return sclip1[:], sclip2[:], clip1[:], abs0[:]
+}
